@@ -91,7 +91,7 @@ def run_contracts():
                      "an_aborted_run_forgets_its_run_directory_too": f"implies({rm}.g_started == old({rm}.g_started) + 1, self._run_time_str is None and self._current_run_time is None)"},
         invariants={0: [f"{rm}.g_saves == old({rm}.g_saves) + _i0", f"{rm}.g_completed == old({rm}.g_completed)", f"{rm}.g_started == old({rm}.g_started) + 1"],
                     1: [f"{rm}.g_saves == old({rm}.g_saves) + _i0", f"{rm}.g_completed == old({rm}.g_completed)", f"{rm}.g_started == old({rm}.g_started) + 1"]},
-        loop_havoc={0: [f"{rm}.g_saves", f"{rm}.g_added", "self.g_yielded"], 1: ["self.g_yielded"]},
+        loop_havoc={0: [f"{rm}.g_saves", f"{rm}.g_added", "self.g_yielded"], 1: ["self.g_yielded", "result._unmatched", "result.g_appended"]},
         yield_to="self.g_yielded", callee_variants={"CsvPath.next": "as_a_list"},
         stub_new=["Result", "ErrorHandler"], list_literals={"results": "list[val]"}, class_fields=CF, macros=MACROS, returns="none", native={"skip": True},
         inline=["CsvPath.is_valid.setter"],
@@ -100,11 +100,30 @@ def run_contracts():
     return cs
 
 
+def build_contract():
+    ERR = "csvpath/util/error.py"
+    cf = {**CF, "ErrorHandler": {**CF.get("ErrorHandler", {}), "_csvpath": "obj:CsvPath"},
+          "Scanner": {**CF.get("Scanner", {}), "filename": "optstr"}}
+    return [Contract(
+        target=f"{ERR}::ErrorHandler.build",
+        types={"ex": "obj", "ex.json": "val", "ex.datum": "val", "ex.message": "val", "ex.trace": "val", "ex.source": "val", "self._csvpath": "obj:CsvPath", "self._csvpath._line_monitor": "obj:LineMonitor", "self._csvpath._line_monitor._physical_line_number": "int",
+               "self._csvpath.scanner": "obj:Scanner", "self._csvpath.match": "val"},
+        requires=["self._csvpath._line_monitor._physical_line_number >= 0"],
+        ensures={"the_record_carries_the_line_it_happened_on": "result.line_count == self._csvpath._line_monitor._physical_line_number",
+                 "and_the_counters_of_that_moment": "result.match_count == self._csvpath.match_count and result.scan_count == self._csvpath.scan_count",
+                 "and_the_exception_itself": "result.error is ex"},
+        covers={"an_error_on_line_zero_is_on_line_zero": "result.line_count == 0"},
+        inline=["Error.__init__", "CsvPath.line_monitor", "LineMonitor.physical_line_number"],
+        class_fields=cf, macros=MACROS, returns="obj:Error", native={"skip": True},
+        property_clauses={"the_record_carries_the_line_it_happened_on": "C18,C05", "and_the_counters_of_that_moment": "C18", "and_the_exception_itself": "C18"},
+        doc={"the_record_carries_the_line_it_happened_on": "C18: 'errors.json ... holds the aborting error with its line'; C05: 'an error record (with line number) is collected'"})]
+
+
 def contracts():
-    c05 = core.select(C05.contracts(), ("ErrorHandler._handle_if",))
+    c05 = core.select(C05.error_contracts(), ("ErrorHandler._handle_if",))
     from . import C10
     crc = [c for c in C10.contracts() if c.target.endswith("CsvPaths.clear_run_coordination")]
-    return c05 + run_interfaces() + run_contracts() + crc
+    return c05 + run_interfaces() + run_contracts() + crc + build_contract()
 
 
 def bounded(tier, seed):
